@@ -39,7 +39,9 @@ theorem lt_of_getElem?_eq_some {α} {l : List α} {i : Nat} {a : α} (h : l[i]? 
   by_cases h : s.active - 1 = -1 <;> simp [activeDone, h]
 @[simp] theorem activeDone_serves (s : St) : (activeDone s).serves = s.serves := by
   by_cases h : s.active - 1 = -1 <;> simp [activeDone, h]
-@[simp] theorem activeDone_listening (s : St) : (activeDone s).listening = s.listening := by
+@[simp] theorem activeDone_listeners (s : St) : (activeDone s).listeners = s.listeners := by
+  by_cases h : s.active - 1 = -1 <;> simp [activeDone, h]
+@[simp] theorem activeDone_connOf (s : St) : (activeDone s).connOf = s.connOf := by
   by_cases h : s.active - 1 = -1 <;> simp [activeDone, h]
 @[simp] theorem activeDone_connClosed (s : St) : (activeDone s).connClosed = s.connClosed := by
   by_cases h : s.active - 1 = -1 <;> simp [activeDone, h]
@@ -120,10 +122,12 @@ theorem step_serveEnter {H : Hash} {cfg : Cfg} {s s' : St} {i : Nat}
     ((s.sd = true ∧ s' = { s with serves := s.serves.set i (.returned .errShutdown),
                                    log := s.log ++ [.serveReturned i] }) ∨
      (s.sd = false ∧ cfg.variant = .fixed ∧
-        s' = { s with listening := s.listening.set i true, serves := s.serves.set i .running,
+        s' = { s with listeners := s.listeners.set (s.connOf.getD i 0) (s.listeners.getD (s.connOf.getD i 0) 0 + 1),
+                      serves := s.serves.set i .running,
                       active := s.active + 1 }) ∨
      (s.sd = false ∧ cfg.variant = .current ∧
-        s' = { s with listening := s.listening.set i true, serves := s.serves.set i .registered })) := by
+        s' = { s with listeners := s.listeners.set (s.connOf.getD i 0) (s.listeners.getD (s.connOf.getD i 0) 0 + 1),
+                      serves := s.serves.set i .registered })) := by
   simp only [step] at h
   split at h
   · next hs =>
@@ -159,18 +163,47 @@ theorem step_serveRecv {H : Hash} {cfg : Cfg} {s s' : St} {i peer : Nat} {d : By
     · exact ⟨hs, (Option.some.inj h).symm⟩
   · cases h
 
+/-- a running Serve call returns with result `r`: the deferred cleanup (unregister, `activeDone`) -/
+def serveLeave (s : St) (i : Nat) (r : ServeRes) : St :=
+  activeDone { s with serves := s.serves.set i (.returned r),
+                      listeners := s.listeners.set (s.connOf.getD i 0) (s.listeners.getD (s.connOf.getD i 0) 0 - 1),
+                      log := s.log ++ [.serveReturned i] }
+
 theorem step_serveReadErr {H : Hash} {cfg : Cfg} {s s' : St} {i : Nat}
     (h : step H cfg s (.serveReadErr i) = some s') :
-    s.serves[i]? = some .running ∧ s.connClosed.getD i 0 > 0 ∧ s.sd = true ∧
-    s' = activeDone { s with serves := s.serves.set i (.returned .errShutdown),
-                             listening := s.listening.set i false,
-                             log := s.log ++ [.serveReturned i] } := by
+    s.serves[i]? = some .running ∧ s.connClosed.getD (s.connOf.getD i 0) 0 > 0 ∧ s.sd = true ∧
+    s' = serveLeave s i .errShutdown := by
   simp only [step] at h
   split at h
   · next hs =>
     split at h
     · next hc => exact ⟨hs, hc.1, hc.2, (Option.some.inj h).symm⟩
     · cases h
+  · cases h
+
+theorem step_serveReadFail {H : Hash} {cfg : Cfg} {s s' : St} {i : Nat} {k : ReadErrKind}
+    (h : step H cfg s (.serveReadFail i k) = some s') :
+    s.serves[i]? = some .running ∧
+    ((s.sd = true ∧ s' = serveLeave s i .errShutdown) ∨
+     (s.sd = false ∧ k = .nonTemporary ∧ s' = serveLeave s i .readError) ∨
+     (s.sd = false ∧ k = .other ∧ s' = s)) := by
+  simp only [step] at h
+  split at h
+  · next hs =>
+    refine ⟨hs, ?_⟩
+    split at h
+    · next hsd => left; exact ⟨hsd, (Option.some.inj h).symm⟩
+    · next hsd =>
+      right
+      have hsd' : s.sd = false := by simpa using hsd
+      split at h
+      · next hk => left; exact ⟨hsd', hk, (Option.some.inj h).symm⟩
+      · next hk =>
+        right
+        refine ⟨hsd', ?_, (Option.some.inj h).symm⟩
+        cases k
+        · exact absurd rfl hk
+        · rfl
   · cases h
 
 theorem step_taskRun {H : Hash} {cfg : Cfg} {s s' : St} {t : Nat}
@@ -228,9 +261,9 @@ theorem step_downEnter {H : Hash} {cfg : Cfg} {s s' : St} {j : Nat}
               sd := true
               ctxCancelled := true
               connClosed := (List.range s.connClosed.length).map
-                 (fun i => s.connClosed.getD i 0 + (if s.listening.getD i false then 1 else 0))
-              log := s.log ++ ((List.range s.serves.length).filter
-                 (fun i => s.listening.getD i false)).map .listenerClosed })) := by
+                 (fun c => s.connClosed.getD c 0 + (if s.listeners.getD c 0 > 0 then 1 else 0))
+              log := s.log ++ ((List.range s.listeners.length).filter
+                 (fun c => s.listeners.getD c 0 > 0)).map .listenerClosed })) := by
   simp only [step] at h
   split at h
   · next c hs =>
@@ -271,6 +304,41 @@ theorem step_ctxExpire {H : Hash} {cfg : Cfg} {s s' : St} {j : Nat}
   split at h
   · next pc hs => exact ⟨pc, hs, (Option.some.inj h).symm⟩
   · cases h
+
+/-! ### `serveLeave` projections -/
+
+@[simp] theorem serveLeave_sd (s : St) (i : Nat) (r : ServeRes) : (serveLeave s i r).sd = s.sd := by
+  simp [serveLeave]
+@[simp] theorem serveLeave_serves (s : St) (i : Nat) (r : ServeRes) :
+    (serveLeave s i r).serves = s.serves.set i (.returned r) := by simp [serveLeave]
+@[simp] theorem serveLeave_listeners (s : St) (i : Nat) (r : ServeRes) :
+    (serveLeave s i r).listeners =
+      s.listeners.set (s.connOf.getD i 0) (s.listeners.getD (s.connOf.getD i 0) 0 - 1) := by simp [serveLeave]
+@[simp] theorem serveLeave_connOf (s : St) (i : Nat) (r : ServeRes) : (serveLeave s i r).connOf = s.connOf := by
+  simp [serveLeave]
+@[simp] theorem serveLeave_connClosed (s : St) (i : Nat) (r : ServeRes) :
+    (serveLeave s i r).connClosed = s.connClosed := by simp [serveLeave]
+@[simp] theorem serveLeave_inflight (s : St) (i : Nat) (r : ServeRes) :
+    (serveLeave s i r).inflight = s.inflight := by simp [serveLeave]
+@[simp] theorem serveLeave_tasks (s : St) (i : Nat) (r : ServeRes) : (serveLeave s i r).tasks = s.tasks := by
+  simp [serveLeave]
+@[simp] theorem serveLeave_downs (s : St) (i : Nat) (r : ServeRes) : (serveLeave s i r).downs = s.downs := by
+  simp [serveLeave]
+@[simp] theorem serveLeave_ctxCancelled (s : St) (i : Nat) (r : ServeRes) :
+    (serveLeave s i r).ctxCancelled = s.ctxCancelled := by simp [serveLeave]
+@[simp] theorem serveLeave_active (s : St) (i : Nat) (r : ServeRes) :
+    (serveLeave s i r).active = s.active - 1 := by simp [serveLeave]
+theorem serveLeave_closes (s : St) (i : Nat) (r : ServeRes) :
+    (serveLeave s i r).closes = if s.active = 0 then s.closes + 1 else s.closes := by
+  simp [serveLeave, activeDone_closes]
+theorem serveLeave_log_filter (s : St) (i : Nat) (r : ServeRes) :
+    (serveLeave s i r).log.filter isHS = s.log.filter isHS := by
+  simp [serveLeave, activeDone_log_filter, isHS]
+theorem serveLeave_log_mem (s : St) (i : Nat) (r : ServeRes) (t : Nat) (k : Key) :
+    Event.handlerStart t k ∈ (serveLeave s i r).log ↔ Event.handlerStart t k ∈ s.log := by
+  simp [serveLeave, activeDone_log_mem]
+@[simp] theorem liveTasks_serveLeave (s : St) (i : Nat) (r : ServeRes) :
+    liveTasks (serveLeave s i r) = liveTasks s := by simp [liveTasks]
 
 /-! ### general invariant (any variant): dedup table, log, caller contexts -/
 
@@ -325,19 +393,19 @@ theorem InvG.of_same {s s' : St} (h : InvG s) (hi : s'.inflight = s.inflight) (h
   · rw [ht]; exact h.uniq
   · rw [ht]; intro t k hm; exact h.log t k (hlog t k hm)
 
-theorem InvG_init (nS nD : Nat) : InvG (init nS nD) := by
+theorem InvG_initWith (conns : List Nat) (nD : Nat) : InvG (initWith conns nD) := by
   refine ⟨?_, ?_, ?_, ?_, ?_, ?_, ?_⟩
-  · simp [init]
-  · intro t tk h; simp [init] at h
-  · intro i; simp [init, List.getD_eq_getElem?_getD, List.getElem?_replicate]
+  · simp [initWith]
+  · intro t tk h; simp [initWith] at h
+  · intro i; simp [initWith, List.getD_eq_getElem?_getD, List.getElem?_replicate]
     split <;> simp
   · intro i key
-    simp [init, List.getD_eq_getElem?_getD, List.getElem?_replicate]
+    simp [initWith, List.getD_eq_getElem?_getD, List.getElem?_replicate]
     split <;> simp
-  · intro t t' i key h; simp [init] at h
-  · intro t key h; simp [init] at h
+  · intro t t' i key h; simp [initWith] at h
+  · intro t key h; simp [initWith] at h
   · intro j c h
-    simp [init, List.getElem?_replicate] at h
+    simp [initWith, List.getElem?_replicate] at h
 
 
 theorem ctx_set {downs : List Down} {j : Nat} {d : Down}
@@ -363,10 +431,20 @@ theorem InvG_serveCount {H cfg s s' i} (h : InvG s) (hs : step H cfg s (.serveCo
   obtain ⟨_, rfl⟩ := step_serveCount hs
   exact h.of_same rfl rfl (by simp) (fun _ _ x => x) h.ctx
 
+theorem InvG_serveLeave {s : St} (h : InvG s) (i : Nat) (r : ServeRes) : InvG (serveLeave s i r) := by
+  refine h.of_same (by simp) (by simp) (by simp) ?_ (by simpa using h.ctx)
+  intro t k; rw [serveLeave_log_mem]; exact id
+
 theorem InvG_serveReadErr {H cfg s s' i} (h : InvG s) (hs : step H cfg s (.serveReadErr i) = some s') : InvG s' := by
   obtain ⟨_, _, _, rfl⟩ := step_serveReadErr hs
-  refine h.of_same (by simp) (by simp) (by simp) ?_ (by simpa using h.ctx)
-  intro t k; rw [activeDone_log_mem]; simp
+  exact InvG_serveLeave h i _
+
+theorem InvG_serveReadFail {H cfg s s' i k} (h : InvG s) (hs : step H cfg s (.serveReadFail i k) = some s') :
+    InvG s' := by
+  obtain ⟨_, hh | hh | hh⟩ := step_serveReadFail hs
+  · obtain ⟨_, rfl⟩ := hh; exact InvG_serveLeave h i _
+  · obtain ⟨_, _, rfl⟩ := hh; exact InvG_serveLeave h i _
+  · obtain ⟨_, _, rfl⟩ := hh; exact h
 
 theorem InvG_downEnter {H cfg s s' j} (h : InvG s) (hs : step H cfg s (.downEnter j) = some s') : InvG s' := by
   obtain ⟨c, _, hh | hh⟩ := step_downEnter hs
@@ -621,6 +699,7 @@ theorem InvG_step {H cfg s s'} (l : Label) (h : InvG s) (hs : step H cfg s l = s
   | serveCount i => exact InvG_serveCount h hs
   | serveRecv i peer d => exact InvG_serveRecv h hs
   | serveReadErr i => exact InvG_serveReadErr h hs
+  | serveReadFail i k => exact InvG_serveReadFail h hs
   | taskRun t => exact InvG_taskRun h hs
   | taskFinish t => exact InvG_taskFinish h hs
   | downEnter j => exact InvG_downEnter h hs
@@ -628,31 +707,143 @@ theorem InvG_step {H cfg s s'} (l : Label) (h : InvG s) (hs : step H cfg s l = s
   | downReturnCtx j => exact InvG_downReturnCtx h hs
   | ctxExpire j => exact InvG_ctxExpire h hs
 
-theorem InvG_run (H : Hash) (cfg : Cfg) (nS nD : Nat) (ls : List Label) :
-    InvG (run H cfg (init nS nD) ls) :=
-  run_preserves H cfg InvG (fun _ l _ h hs => InvG_step l h hs) ls _ (InvG_init nS nD)
+theorem InvG_run (H : Hash) (cfg : Cfg) (conns : List Nat) (nD : Nat) (ls : List Label) :
+    InvG (run H cfg (initWith conns nD) ls) :=
+  run_preserves H cfg InvG (fun _ l _ h hs => InvG_step l h hs) ls _ (InvG_initWith conns nD)
+
+/-! ### counting over `List.range` -/
+
+/-- number of `i < n` with `p i` -/
+def cntR (p : Nat → Bool) (n : Nat) : Nat := ((List.range n).filter p).length
+
+theorem cntR_succ (p : Nat → Bool) (n : Nat) :
+    cntR p (n + 1) = cntR p n + (if p n = true then 1 else 0) := by
+  simp only [cntR, List.range_succ, List.filter_append, List.length_append]
+  by_cases h : p n = true <;> simp [h]
+
+theorem cntR_congr {p q : Nat → Bool} {n : Nat} (h : ∀ j, j < n → p j = q j) : cntR p n = cntR q n := by
+  induction n with
+  | zero => rfl
+  | succ n ih =>
+    rw [cntR_succ, cntR_succ, ih (fun j hj => h j (by omega)), h n (by omega)]
+
+theorem cntR_zero {p : Nat → Bool} {n : Nat} (h : ∀ j, j < n → p j = false) : cntR p n = 0 := by
+  induction n with
+  | zero => rfl
+  | succ n ih =>
+    rw [cntR_succ, ih (fun j hj => h j (by omega)), h n (by omega)]
+    simp
+
+theorem cntR_pos {p : Nat → Bool} {n i : Nat} (hi : i < n) (hp : p i = true) : cntR p n ≥ 1 := by
+  induction n with
+  | zero => omega
+  | succ n ih =>
+    rw [cntR_succ]
+    by_cases hin : i = n
+    · subst hin; simp [hp]
+    · have := ih (by omega); omega
+
+/-- if `p` and `q` differ at most at index `i < n`, their counts differ by the values at `i` -/
+theorem cntR_update {p q : Nat → Bool} {n i : Nat} (hi : i < n) (h : ∀ j, j < n → j ≠ i → p j = q j) :
+    cntR q n + (if p i = true then 1 else 0) = cntR p n + (if q i = true then 1 else 0) := by
+  induction n with
+  | zero => omega
+  | succ n ih =>
+    rw [cntR_succ, cntR_succ]
+    by_cases hin : i = n
+    · subst hin
+      have : cntR q i = cntR p i := cntR_congr (fun j hj => (h j (by omega) (by omega)).symm)
+      omega
+    · have h1 := ih (by omega) (fun j hj hne => h j (by omega) hne)
+      have h2 := h n (by omega) (fun e => hin e.symm)
+      rw [h2]; omega
+
+/-- Serve call `i` is in its read loop on conn `c` -/
+def runOnL (serves : List ServePc) (connOf : List Nat) (c : Nat) : Nat → Bool :=
+  fun i => serves[i]? == some .running && connOf.getD i 0 == c
+
+theorem cnt_set {serves : List ServePc} {connOf : List Nat} {i : Nat} {a : ServePc} (b : ServePc) (c : Nat)
+    (h : serves[i]? = some a) :
+    cntR (runOnL (serves.set i b) connOf c) serves.length
+        + (if a = .running ∧ connOf.getD i 0 = c then 1 else 0) =
+      cntR (runOnL serves connOf c) serves.length
+        + (if b = .running ∧ connOf.getD i 0 = c then 1 else 0) := by
+  have hi := lt_of_getElem?_eq_some h
+  have key := @cntR_update (runOnL serves connOf c) (runOnL (serves.set i b) connOf c) serves.length i hi
+    (by intro j _ hne; simp [runOnL, Ne.symm hne])
+  have e1 : (runOnL serves connOf c i = true) ↔ (a = .running ∧ connOf.getD i 0 = c) := by
+    simp [runOnL, h]
+  have e2 : (runOnL (serves.set i b) connOf c i = true) ↔ (b = .running ∧ connOf.getD i 0 = c) := by
+    simp [runOnL, hi]
+  simp only [e1, e2] at key
+  exact key
+
+theorem runOnL_pos {serves : List ServePc} {connOf : List Nat} {i : Nat} (h : serves[i]? = some .running) :
+    cntR (runOnL serves connOf (connOf.getD i 0)) serves.length ≥ 1 :=
+  cntR_pos (lt_of_getElem?_eq_some h) (by simp [runOnL, h])
+
+theorem lt_of_getD_pos {l : List Nat} {i : Nat} (h : l.getD i 0 > 0) : i < l.length := by
+  by_cases hl : i < l.length
+  · exact hl
+  · rw [List.getD_eq_getElem?_getD, List.getElem?_eq_none (by omega)] at h
+    simp at h
+
+theorem foldl_max_le (l : List Nat) : ∀ a, a ≤ l.foldl max a ∧ ∀ c ∈ l, c ≤ l.foldl max a := by
+  induction l with
+  | nil => intro a; simp
+  | cons x xs ih =>
+    intro a
+    simp only [List.foldl_cons, List.mem_cons]
+    obtain ⟨h1, h2⟩ := ih (max a x)
+    refine ⟨by omega, ?_⟩
+    rintro c (rfl | hc)
+    · omega
+    · exact h2 c hc
+
+theorem getD_lt_foldl_max (conns : List Nat) (i : Nat) (hi : i < conns.length) :
+    conns.getD i 0 < conns.foldl max 0 + 1 := by
+  have := (foldl_max_le conns 0).2 (conns.getD i 0) (by
+    rw [List.getD_eq_getElem?_getD, List.getElem?_eq_getElem hi]; simp)
+  omega
 
 /-! ### invariant of the repaired server (variant `.fixed`): accounting, single close, listeners -/
 
 structure InvF (s : St) : Prop where
-  len1 : s.listening.length = s.serves.length
-  len2 : s.connClosed.length = s.serves.length
+  lenC : s.connOf.length = s.serves.length
+  lenL : s.connClosed.length = s.listeners.length
+  connB : ∀ i : Nat, i < s.serves.length → s.connOf.getD i 0 < s.listeners.length
   noReg : ∀ i : Nat, s.serves[i]? ≠ some .registered
   act : s.active = (countedServes s : Int) + (liveTasks s : Int) - (if s.sd then 1 else 0)
   cl1 : s.closes ≤ 1
   cl2 : s.closes = 1 ↔ (s.sd = true ∧ countedServes s = 0 ∧ liveTasks s = 0)
   sdc : s.sd = true → s.ctxCancelled = true ∧
-    ∀ i : Nat, s.listening.getD i false = true → s.connClosed.getD i 0 ≥ 1
-  runL : ∀ i : Nat, s.serves[i]? = some .running → s.listening.getD i false = true
+    ∀ c : Nat, s.listeners.getD c 0 > 0 → s.connClosed.getD c 0 ≥ 1
+  nsd : s.sd = false → ∀ c : Nat, s.connClosed.getD c 0 = 0
+  cnt : ∀ c : Nat, s.listeners.getD c 0 = cntR (runOnL s.serves s.connOf c) s.serves.length
   nil : ∀ (j : Nat) (c : Bool), s.downs[j]? = some (⟨.returned .nil, c⟩ : Down) → s.closes ≥ 1
 
-theorem InvF_init (nS nD : Nat) : InvF (init nS nD) := by
-  refine ⟨by simp [init], by simp [init], ?_, ?_, by simp [init], ?_, by simp [init], ?_, ?_⟩
-  · intro i; simp [init, List.getElem?_replicate]
-  · simp [init, countedServes, liveTasks]
-  · simp [init]
-  · intro i; simp [init, List.getElem?_replicate]
-  · intro j c; simp [init, List.getElem?_replicate]
+theorem InvF_initWith (conns : List Nat) (nD : Nat) : InvF (initWith conns nD) := by
+  refine ⟨by simp [initWith], by simp [initWith], ?_, ?_, ?_, by simp [initWith], ?_, by simp [initWith],
+    ?_, ?_, ?_⟩
+  · intro i hi
+    simp only [initWith, List.length_replicate] at hi ⊢
+    exact getD_lt_foldl_max conns i hi
+  · intro i; simp [initWith, List.getElem?_replicate]
+  · simp [initWith, countedServes, liveTasks]
+  · simp [initWith]
+  · intro _ c
+    simp [initWith, List.getD_eq_getElem?_getD, List.getElem?_replicate]
+    split <;> rfl
+  · intro c
+    have h0 : cntR (runOnL (initWith conns nD).serves (initWith conns nD).connOf c)
+        (initWith conns nD).serves.length = 0 := by
+      apply cntR_zero
+      intro j _
+      simp [runOnL, initWith, List.getElem?_replicate]
+    rw [h0]
+    simp [initWith, List.getD_eq_getElem?_getD, List.getElem?_replicate]
+    split <;> rfl
+  · intro j c; simp [initWith, List.getElem?_replicate]
 
 theorem counted_set {s : St} {i : Nat} {a : ServePc} (b : ServePc) (h : s.serves[i]? = some a) :
     ((s.serves.set i b).filter (· == .running)).length + (if a = .running then 1 else 0) =
@@ -692,36 +883,43 @@ theorem InvF_serveEnter {H cfg s s' i} (hv : cfg.variant = .fixed) (h : InvF s)
     simp at hc
     have hcs : countedServes { s with serves := s.serves.set i (.returned .errShutdown), log := s.log ++ [.serveReturned i] } = countedServes s := by
       simp only [countedServes]; exact hc
-    refine ⟨by simpa using h.len1, by simpa using h.len2, noReg_set (by simp) h.noReg, ?_, h.cl1, ?_, h.sdc, ?_, h.nil⟩
+    refine ⟨by simpa using h.lenC, h.lenL, by simpa using h.connB, noReg_set (by simp) h.noReg, ?_, h.cl1, ?_,
+      h.sdc, h.nsd, ?_, h.nil⟩
     · rw [hcs]; exact h.act
     · rw [hcs]; exact h.cl2
-    · intro i' hh
-      rcases getElem?_set_some hh with ⟨_, he, _⟩ | ⟨_, he⟩
-      · cases he
-      · exact h.runL i' he
+    · intro c
+      have := cnt_set (connOf := s.connOf) (.returned .errShutdown) c hns
+      simp only [reduceCtorEq, false_and, if_false] at this
+      show s.listeners.getD c 0 = cntR (runOnL (s.serves.set i _) s.connOf c) (s.serves.set i _).length
+      rw [List.length_set, h.cnt c]; omega
   · obtain ⟨hsd, _, rfl⟩ := hh
     have hil := lt_of_getElem?_eq_some hns
     have hc := counted_set .running hns
     simp at hc
-    have hcs : countedServes { s with listening := s.listening.set i true, serves := s.serves.set i .running, active := s.active + 1 } = countedServes s + 1 := by
+    have hcs : countedServes { s with listeners := s.listeners.set (s.connOf.getD i 0) (s.listeners.getD (s.connOf.getD i 0) 0 + 1), serves := s.serves.set i .running, active := s.active + 1 } = countedServes s + 1 := by
       simp only [countedServes]; exact hc
     have hact := h.act
     have hcl2 := h.cl2
     simp only [hsd] at hact hcl2
-    refine ⟨by simpa using h.len1, by simpa using h.len2, noReg_set (by simp) h.noReg, ?_, h.cl1, ?_, ?_, ?_, h.nil⟩
+    have hcb := h.connB i hil
+    refine ⟨by simpa using h.lenC, by simpa using h.lenL, by simpa using h.connB, noReg_set (by simp) h.noReg,
+      ?_, h.cl1, ?_, ?_, h.nsd, ?_, h.nil⟩
     · rw [hcs]; simp only [liveTasks, hsd] at hact ⊢; omega
     · simp only [hsd]; simp at hcl2 ⊢; exact hcl2
     · intro hsd'; simp only [hsd] at hsd'; cases hsd'
-    · intro i' hh
-      simp only [getD_set]
-      rcases getElem?_set_some hh with ⟨he, _, _⟩ | ⟨_, he⟩
-      · have : i < s.listening.length := by rw [h.len1]; exact hil
-        subst he
-        simp only [this, and_self, if_true]
-      · have := h.runL i' he
-        split
-        · rfl
-        · exact this
+    · intro c
+      have := cnt_set (connOf := s.connOf) .running c hns
+      simp only [reduceCtorEq, false_and, true_and, if_false] at this
+      show (s.listeners.set _ _).getD c 0 = cntR (runOnL (s.serves.set i _) s.connOf c) (s.serves.set i _).length
+      rw [getD_set, List.length_set]
+      have h1 := h.cnt c
+      have h2 := h.cnt (s.connOf.getD i 0)
+      by_cases hcc : s.connOf.getD i 0 = c
+      · subst hcc
+        simp only [hcb, and_self, if_true] at this ⊢
+        omega
+      · simp only [hcc, false_and, if_false] at this ⊢
+        omega
   · obtain ⟨_, hv', _⟩ := hh
     rw [hv] at hv'; cases hv'
 
@@ -753,62 +951,90 @@ theorem InvF_serveRecv {H cfg s s' i peer d} (h : InvF s)
   have hact := h.act
   have hcl2 := h.cl2
   have hcl1 := h.cl1
-  refine ⟨h.len1, h.len2, h.noReg, ?_, h.cl1, ?_, h.sdc, h.runL, h.nil⟩
+  refine ⟨h.lenC, h.lenL, h.connB, h.noReg, ?_, h.cl1, ?_, h.sdc, h.nsd, h.cnt, h.nil⟩
   · rw [hl, hcs]; simp only []; omega
   · rw [hl, hcs]; simp only []
     constructor
     · intro hc; have := hcl2.mp hc; omega
     · intro hc; omega
 
-theorem InvF_serveReadErr {H cfg s s' i} (h : InvF s)
-    (hs : step H cfg s (.serveReadErr i) = some s') : InvF s' := by
-  obtain ⟨hrun, _, hsd, rfl⟩ := step_serveReadErr hs
-  have hpos := counted_pos hrun
-  have hc := counted_set (.returned .errShutdown) hrun
+theorem countedServes_serveLeave {s : St} {i : Nat} (r : ServeRes) (hrun : s.serves[i]? = some .running) :
+    countedServes (serveLeave s i r) + 1 = countedServes s := by
+  have hc := counted_set (.returned r) hrun
   simp at hc
+  simp only [countedServes, serveLeave_serves] at hc ⊢
+  exact hc
+
+/-- a running Serve call returns (read error after Close, or any read failure): deferred cleanup -/
+theorem InvF_serveLeave {s : St} {i : Nat} (r : ServeRes) (h : InvF s) (hrun : s.serves[i]? = some .running) :
+    InvF (serveLeave s i r) := by
+  have hil := lt_of_getElem?_eq_some hrun
+  have hpos := counted_pos hrun
+  have hc := countedServes_serveLeave r hrun
   have hact := h.act
   have hcl2 := h.cl2
   have hcl1 := h.cl1
-  simp only [hsd, if_true, true_and] at hact hcl2
   have hcl0 : s.closes = 0 := by
     have : ¬ s.closes = 1 := by intro hx; have := hcl2.mp hx; omega
     omega
-  refine ⟨by simpa using h.len1, by simpa using h.len2, ?_, ?_, ?_, ?_, ?_, ?_, ?_⟩
-  · simp only [activeDone_serves]; exact noReg_set (by simp) h.noReg
-  · simp only [activeDone_active, countedServes_activeDone, liveTasks_activeDone, activeDone_sd, hsd, if_true]
-    simp only [countedServes, liveTasks] at hc hact ⊢
+  have hcb := h.connB i hil
+  refine ⟨by simpa using h.lenC, by simpa using h.lenL, by simpa using h.connB, ?_, ?_, ?_, ?_, ?_, ?_, ?_, ?_⟩
+  · simp only [serveLeave_serves]; exact noReg_set (by simp) h.noReg
+  · simp only [serveLeave_active, liveTasks_serveLeave, serveLeave_sd]
     omega
-  · rw [activeDone_closes]; simp only []; split <;> omega
-  · rw [activeDone_closes]
-    simp only [countedServes_activeDone, liveTasks_activeDone, activeDone_sd, hsd, true_and]
-    simp only [countedServes, liveTasks] at hc hact ⊢
-    split <;> omega
-  · intro _
-    simp only [activeDone_ctxCancelled, activeDone_listening, activeDone_connClosed]
+  · rw [serveLeave_closes]; split <;> omega
+  · rw [serveLeave_closes]
+    simp only [liveTasks_serveLeave, serveLeave_sd]
+    cases hsd : s.sd <;> simp [hsd] at hact ⊢ <;> split <;> omega
+  · intro hsd
+    simp only [serveLeave_sd] at hsd
+    simp only [serveLeave_ctxCancelled, serveLeave_listeners, serveLeave_connClosed]
     refine ⟨(h.sdc hsd).1, ?_⟩
-    intro i' hl
-    simp only [getD_set] at hl
+    intro c hl
+    rw [getD_set] at hl
+    apply (h.sdc hsd).2 c
     split at hl
-    · cases hl
-    · exact (h.sdc hsd).2 i' hl
-  · intro i' hh
-    simp only [activeDone_serves, activeDone_listening] at hh ⊢
-    rcases getElem?_set_some hh with ⟨_, he, _⟩ | ⟨hne, he⟩
-    · cases he
-    · simp only [getD_set, hne, false_and, if_false]
-      exact h.runL i' he
+    · next hcc => rw [← hcc.1]; omega
+    · exact hl
+  · simpa using h.nsd
+  · intro c
+    have := cnt_set (connOf := s.connOf) (.returned r) c hrun
+    simp only [reduceCtorEq, false_and, true_and, if_false] at this
+    simp only [serveLeave_listeners, serveLeave_serves, serveLeave_connOf]
+    rw [getD_set, List.length_set]
+    have h1 := h.cnt c
+    have h2 := h.cnt (s.connOf.getD i 0)
+    by_cases hcc : s.connOf.getD i 0 = c
+    · subst hcc
+      simp only [hcb, and_self, if_true] at this ⊢
+      omega
+    · simp only [hcc, false_and, if_false] at this ⊢
+      omega
   · intro j c hh
-    simp only [activeDone_downs] at hh
+    simp only [serveLeave_downs] at hh
     have := h.nil j c hh
     omega
+
+theorem InvF_serveReadErr {H cfg s s' i} (h : InvF s)
+    (hs : step H cfg s (.serveReadErr i) = some s') : InvF s' := by
+  obtain ⟨hrun, _, _, rfl⟩ := step_serveReadErr hs
+  exact InvF_serveLeave _ h hrun
+
+theorem InvF_serveReadFail {H cfg s s' i k} (h : InvF s)
+    (hs : step H cfg s (.serveReadFail i k) = some s') : InvF s' := by
+  obtain ⟨hrun, hh | hh | hh⟩ := step_serveReadFail hs
+  · obtain ⟨_, rfl⟩ := hh; exact InvF_serveLeave _ h hrun
+  · obtain ⟨_, _, rfl⟩ := hh; exact InvF_serveLeave _ h hrun
+  · obtain ⟨_, _, rfl⟩ := hh; exact h
 
 
 /-- a live task finishes (dropped, or handler returned): common part of `taskRun`/`taskFinish` -/
 theorem InvF_taskDone {s s0 : St} {t i : Nat} {a : Task} (h : InvF s)
     (ht : s.tasks[t]? = some a) (ha : a.pc ≠ .done)
     (h1 : s0.sd = s.sd) (h2 : s0.active = s.active) (h3 : s0.closes = s.closes)
-    (h4 : s0.ctxCancelled = s.ctxCancelled) (h5 : s0.serves = s.serves) (h6 : s0.listening = s.listening)
-    (h7 : s0.connClosed = s.connClosed) (h8 : s0.tasks = s.tasks.set t ⟨i, .done⟩) (h9 : s0.downs = s.downs) :
+    (h4 : s0.ctxCancelled = s.ctxCancelled) (h5 : s0.serves = s.serves) (h6 : s0.listeners = s.listeners)
+    (h7 : s0.connClosed = s.connClosed) (h8 : s0.tasks = s.tasks.set t ⟨i, .done⟩) (h9 : s0.downs = s.downs)
+    (h10 : s0.connOf = s.connOf) :
     InvF (activeDone s0) := by
   have hpos := live_pos ht ha
   have hc := live_set ⟨i, .done⟩ ht
@@ -821,9 +1047,10 @@ theorem InvF_taskDone {s s0 : St} {t i : Nat} {a : Task} (h : InvF s)
     omega
   have hcs : countedServes s0 = countedServes s := by simp [countedServes, h5]
   have hls : liveTasks s0 + 1 = liveTasks s := by simp only [liveTasks, h8]; exact hc
-  refine ⟨?_, ?_, ?_, ?_, ?_, ?_, ?_, ?_, ?_⟩
-  · simp only [activeDone_serves, activeDone_listening, h5, h6]; exact h.len1
-  · simp only [activeDone_serves, activeDone_connClosed, h5, h7]; exact h.len2
+  refine ⟨?_, ?_, ?_, ?_, ?_, ?_, ?_, ?_, ?_, ?_, ?_⟩
+  · simp only [activeDone_serves, activeDone_connOf, h5, h10]; exact h.lenC
+  · simp only [activeDone_listeners, activeDone_connClosed, h6, h7]; exact h.lenL
+  · simp only [activeDone_serves, activeDone_connOf, activeDone_listeners, h5, h6, h10]; exact h.connB
   · simp only [activeDone_serves, h5]; exact h.noReg
   · simp only [activeDone_active, countedServes_activeDone, liveTasks_activeDone, activeDone_sd, h1, h2, hcs]
     omega
@@ -831,9 +1058,10 @@ theorem InvF_taskDone {s s0 : St} {t i : Nat} {a : Task} (h : InvF s)
   · rw [activeDone_closes, h2, h3]
     simp only [countedServes_activeDone, liveTasks_activeDone, activeDone_sd, h1, hcs]
     cases hsd : s.sd <;> simp [hsd] at hact ⊢ <;> split <;> omega
-  · simp only [activeDone_sd, activeDone_ctxCancelled, activeDone_listening, activeDone_connClosed, h1, h4, h6, h7]
+  · simp only [activeDone_sd, activeDone_ctxCancelled, activeDone_listeners, activeDone_connClosed, h1, h4, h6, h7]
     exact h.sdc
-  · simp only [activeDone_serves, activeDone_listening, h5, h6]; exact h.runL
+  · simp only [activeDone_sd, activeDone_connClosed, h1, h7]; exact h.nsd
+  · simp only [activeDone_serves, activeDone_connOf, activeDone_listeners, h5, h6, h10]; exact h.cnt
   · intro j c hh
     simp only [activeDone_downs, h9] at hh
     have := h.nil j c hh
@@ -847,31 +1075,25 @@ theorem InvF_taskRun {H cfg s s' t} (h : InvF s) (hs : step H cfg s (.taskRun t)
     have hls : liveTasks { s with tasks := s.tasks.set t ⟨i, .inHandler key⟩, inflight := s.inflight.set i (key :: s.inflight.getD i []), log := s.log ++ [.handlerStart t key] } = liveTasks s := by
       simp only [liveTasks]; exact hc
     have hcs : countedServes { s with tasks := s.tasks.set t ⟨i, .inHandler key⟩, inflight := s.inflight.set i (key :: s.inflight.getD i []), log := s.log ++ [.handlerStart t key] } = countedServes s := rfl
-    refine ⟨h.len1, h.len2, h.noReg, ?_, h.cl1, ?_, h.sdc, h.runL, h.nil⟩
+    refine ⟨h.lenC, h.lenL, h.connB, h.noReg, ?_, h.cl1, ?_, h.sdc, h.nsd, h.cnt, h.nil⟩
     · rw [hls, hcs]; exact h.act
     · rw [hls, hcs]; exact h.cl2
   · obtain ⟨_, rfl⟩ := hh
-    exact InvF_taskDone (i := i) h ht (by simp) rfl rfl rfl rfl rfl rfl rfl rfl rfl
+    exact InvF_taskDone (i := i) h ht (by simp) rfl rfl rfl rfl rfl rfl rfl rfl rfl rfl
 
 theorem InvF_taskFinish {H cfg s s' t} (h : InvF s) (hs : step H cfg s (.taskFinish t) = some s') : InvF s' := by
   obtain ⟨i, key, ht, rfl⟩ := step_taskFinish hs
-  exact InvF_taskDone (i := i) h ht (by simp) rfl rfl rfl rfl rfl rfl rfl rfl rfl
+  exact InvF_taskDone (i := i) h ht (by simp) rfl rfl rfl rfl rfl rfl rfl rfl rfl rfl
 
 
 theorem getD_map_range {β} (n i : Nat) (f : Nat → β) (d : β) (h : i < n) :
     ((List.range n).map f).getD i d = f i := by
   simp [List.getD_eq_getElem?_getD, List.getElem?_map, List.getElem?_range h]
 
-theorem lt_of_getD_true {l : List Bool} {i : Nat} (h : l.getD i false = true) : i < l.length := by
-  by_cases hl : i < l.length
-  · exact hl
-  · rw [List.getD_eq_getElem?_getD, List.getElem?_eq_none (by omega)] at h
-    cases h
-
 theorem InvF_downEnter {H cfg s s' j} (h : InvF s) (hs : step H cfg s (.downEnter j) = some s') : InvF s' := by
   obtain ⟨c, _, hh | hh⟩ := step_downEnter hs
   · obtain ⟨_, rfl⟩ := hh
-    refine ⟨h.len1, h.len2, h.noReg, h.act, h.cl1, h.cl2, h.sdc, h.runL, ?_⟩
+    refine ⟨h.lenC, h.lenL, h.connB, h.noReg, h.act, h.cl1, h.cl2, h.sdc, h.nsd, h.cnt, ?_⟩
     exact nil_set h.nil (by intro c hc; cases hc)
   · obtain ⟨hsd, rfl⟩ := hh
     have hact := h.act
@@ -879,7 +1101,8 @@ theorem InvF_downEnter {H cfg s s' j} (h : InvF s) (hs : step H cfg s (.downEnte
     have hcl1 := h.cl1
     simp [hsd] at hact hcl2
     have hcl0 : s.closes = 0 := by omega
-    refine ⟨by simpa using h.len1, by simpa using h.len2, by simpa using h.noReg, ?_, ?_, ?_, ?_, ?_, ?_⟩
+    refine ⟨by simpa using h.lenC, by simpa using h.lenL, by simpa using h.connB, by simpa using h.noReg,
+      ?_, ?_, ?_, ?_, ?_, ?_, ?_⟩
     · simp only [activeDone_active, countedServes_activeDone, liveTasks_activeDone, activeDone_sd, if_true]
       simp only [countedServes, liveTasks] at hact ⊢
       omega
@@ -889,12 +1112,13 @@ theorem InvF_downEnter {H cfg s s' j} (h : InvF s) (hs : step H cfg s (.downEnte
       simp only [countedServes, liveTasks] at hact ⊢
       split <;> omega
     · intro _
-      simp only [activeDone_ctxCancelled, activeDone_listening, activeDone_connClosed, true_and]
-      intro i hl
-      have hil : i < s.connClosed.length := by rw [h.len2, ← h.len1]; exact lt_of_getD_true hl
+      simp only [activeDone_ctxCancelled, activeDone_listeners, activeDone_connClosed, true_and]
+      intro c hl
+      have hil : c < s.connClosed.length := by rw [h.lenL]; exact lt_of_getD_pos hl
       rw [getD_map_range _ _ _ _ hil]
       simp only [hl, if_true]; omega
-    · simpa using h.runL
+    · intro hsd'; simp at hsd'
+    · simpa using h.cnt
     · intro j' c' hh
       simp only [activeDone_downs] at hh
       have := nil_set h.nil (by intro c hc; cases hc) j' c' hh
@@ -902,17 +1126,17 @@ theorem InvF_downEnter {H cfg s s' j} (h : InvF s) (hs : step H cfg s (.downEnte
 
 theorem InvF_downReturnNil {H cfg s s' j} (h : InvF s) (hs : step H cfg s (.downReturnNil j) = some s') : InvF s' := by
   obtain ⟨c, _, hc, rfl⟩ := step_downReturnNil hs
-  refine ⟨h.len1, h.len2, h.noReg, h.act, h.cl1, h.cl2, h.sdc, h.runL, ?_⟩
+  refine ⟨h.lenC, h.lenL, h.connB, h.noReg, h.act, h.cl1, h.cl2, h.sdc, h.nsd, h.cnt, ?_⟩
   exact nil_set h.nil (fun _ _ => hc)
 
 theorem InvF_downReturnCtx {H cfg s s' j} (h : InvF s) (hs : step H cfg s (.downReturnCtx j) = some s') : InvF s' := by
   obtain ⟨_, rfl⟩ := step_downReturnCtx hs
-  refine ⟨h.len1, h.len2, h.noReg, h.act, h.cl1, h.cl2, h.sdc, h.runL, ?_⟩
+  refine ⟨h.lenC, h.lenL, h.connB, h.noReg, h.act, h.cl1, h.cl2, h.sdc, h.nsd, h.cnt, ?_⟩
   exact nil_set h.nil (by intro c hc; cases hc)
 
 theorem InvF_ctxExpire {H cfg s s' j} (h : InvF s) (hs : step H cfg s (.ctxExpire j) = some s') : InvF s' := by
   obtain ⟨pc, hd, rfl⟩ := step_ctxExpire hs
-  refine ⟨h.len1, h.len2, h.noReg, h.act, h.cl1, h.cl2, h.sdc, h.runL, ?_⟩
+  refine ⟨h.lenC, h.lenL, h.connB, h.noReg, h.act, h.cl1, h.cl2, h.sdc, h.nsd, h.cnt, ?_⟩
   refine nil_set h.nil ?_
   intro c hc; cases hc
   exact h.nil j false hd
@@ -924,6 +1148,7 @@ theorem InvF_step {H cfg s s'} (hv : cfg.variant = .fixed) (l : Label) (h : InvF
   | serveCount i => exact InvF_serveCount h hs
   | serveRecv i peer d => exact InvF_serveRecv h hs
   | serveReadErr i => exact InvF_serveReadErr h hs
+  | serveReadFail i k => exact InvF_serveReadFail h hs
   | taskRun t => exact InvF_taskRun h hs
   | taskFinish t => exact InvF_taskFinish h hs
   | downEnter j => exact InvF_downEnter h hs
@@ -935,9 +1160,9 @@ theorem InvF_run_from (H : Hash) (cfg : Cfg) (hv : cfg.variant = .fixed) (ls : L
     (h : InvF s) : InvF (run H cfg s ls) :=
   run_preserves H cfg InvF (fun _ l _ h hs => InvF_step hv l h hs) ls s h
 
-theorem InvF_run (H : Hash) (cfg : Cfg) (hv : cfg.variant = .fixed) (nS nD : Nat) (ls : List Label) :
-    InvF (run H cfg (init nS nD) ls) :=
-  InvF_run_from H cfg hv ls _ (InvF_init nS nD)
+theorem InvF_run (H : Hash) (cfg : Cfg) (hv : cfg.variant = .fixed) (conns : List Nat) (nD : Nat)
+    (ls : List Label) : InvF (run H cfg (initWith conns nD) ls) :=
+  InvF_run_from H cfg hv ls _ (InvF_initWith conns nD)
 
 /-! ### drained states are absorbing; every shutdown state can be drained -/
 
@@ -980,6 +1205,10 @@ theorem Drained_step {H cfg s s'} (l : Label) (h : Drained s) (hs : step H cfg s
     cases this
   | serveReadErr i =>
     obtain ⟨hr, _⟩ := step_serveReadErr hs
+    have := h.serves _ (List.mem_of_getElem? hr)
+    cases this
+  | serveReadFail i k =>
+    obtain ⟨hr, _⟩ := step_serveReadFail hs
     have := h.serves _ (List.mem_of_getElem? hr)
     cases this
   | taskRun t =>
@@ -1086,7 +1315,7 @@ theorem taskRun_enabled {H cfg} {s : St} {t i : Nat} {fate : Fate}
   | _ => exact ⟨_, rfl⟩
 
 theorem serveReadErr_enabled {H cfg} {s : St} {i : Nat}
-    (hi : s.serves[i]? = some .running) (hc : s.connClosed.getD i 0 > 0) (hsd : s.sd = true) :
+    (hi : s.serves[i]? = some .running) (hc : s.connClosed.getD (s.connOf.getD i 0) 0 > 0) (hsd : s.sd = true) :
     ∃ s', step H cfg s (.serveReadErr i) = some s' := by
   simp only [step, hi]
   rw [if_pos ⟨hc, hsd⟩]
@@ -1108,15 +1337,17 @@ theorem drain_progress {H cfg} {s : St} (h : InvF s) (hsd : s.sd = true)
       obtain ⟨i, pc, hi, hp⟩ := exists_of_filter_pos hcs
       have : pc = .running := by simpa using hp
       subst this
-      have hcc := (h.sdc hsd).2 i (h.runL i hi)
+      -- the Serve call is counted in `listeners[connOf i]`, so Shutdown closed its conn
+      have hlp : s.listeners.getD (s.connOf.getD i 0) 0 > 0 := by
+        rw [h.cnt]; exact runOnL_pos hi
+      have hcc := (h.sdc hsd).2 _ hlp
       obtain ⟨s', hs'⟩ := serveReadErr_enabled (H := H) (cfg := cfg) hi hcc hsd
       refine ⟨.serveReadErr i, s', hs', ?_⟩
       obtain ⟨_, _, _, rfl⟩ := step_serveReadErr hs'
       refine ⟨by simp [hsd], ?_⟩
-      · have hc := counted_set (.returned .errShutdown) hi
-        simp at hc
-        simp only [drainMeasure, countedServes_activeDone, liveTasks_activeDone, spawnedTasks_activeDone]
-        simp only [countedServes, liveTasks, spawnedTasks] at *
+      · have hc := countedServes_serveLeave .errShutdown hi
+        have hsp' : spawnedTasks (serveLeave s i .errShutdown) = spawnedTasks s := by simp [spawnedTasks]
+        simp only [drainMeasure, liveTasks_serveLeave, hsp']
         omega
     · -- a task in its handler
       obtain ⟨t, a, ht, hp⟩ := exists_of_filter_pos hlv
@@ -1187,6 +1418,40 @@ theorem serveEnter_shutdown {H : Hash} {cfg : Cfg} {s : St} {i : Nat} (hsd : s.s
     step H cfg s (.serveEnter i) =
       some { s with serves := s.serves.set i (.returned .errShutdown), log := s.log ++ [.serveReturned i] } := by
   simp only [step, hi, hsd, if_true]
+
+/-- `C07.read_failure` -/
+theorem read_failure' (H : Hash) (cfg : Cfg) (s : St) (i : Nat) (k : ReadErrKind)
+    (hi : s.serves[i]? = some .running) :
+    ∃ s', step H cfg s (.serveReadFail i k) = some s' ∧
+      (s.sd = true → s'.serves[i]? = some (.returned .errShutdown)) ∧
+      (s.sd = false → k = .nonTemporary → s'.serves[i]? = some (.returned .readError) ∧
+          s'.listeners.getD (s.connOf.getD i 0) 0 = s.listeners.getD (s.connOf.getD i 0) 0 - 1) ∧
+      (s.sd = false → k = .other → s' = s) := by
+  have hil := lt_of_getElem?_eq_some hi
+  have hg : ∀ r, (serveLeave s i r).serves[i]? = some (.returned r) := by
+    intro r; simp [hil]
+  have hl : ∀ r, (serveLeave s i r).listeners.getD (s.connOf.getD i 0) 0 =
+      s.listeners.getD (s.connOf.getD i 0) 0 - 1 := by
+    intro r
+    rw [serveLeave_listeners, getD_set]
+    split
+    · rfl
+    · next hn =>
+      have : ¬ s.connOf.getD i 0 < s.listeners.length := fun hlt => hn ⟨rfl, hlt⟩
+      rw [List.getD_eq_getElem?_getD, List.getElem?_eq_none (by omega)]
+      rfl
+  by_cases hsd : s.sd = true
+  · refine ⟨serveLeave s i .errShutdown, ?_, fun _ => hg _, by simp [hsd], by simp [hsd]⟩
+    simp only [step, hi]
+    rw [if_pos hsd]; rfl
+  · have hsd' : s.sd = false := by simpa using hsd
+    cases k
+    · refine ⟨serveLeave s i .readError, ?_, by simp [hsd'], fun _ _ => ⟨hg _, hl _⟩, by simp⟩
+      simp only [step, hi]
+      rw [if_neg hsd, if_pos trivial]; rfl
+    · refine ⟨s, ?_, by simp [hsd'], by simp, fun _ _ => rfl⟩
+      simp only [step, hi]
+      rw [if_neg hsd, if_neg (by simp)]
 
 /-- the datagram of the non-vacuity example of C07 passes the pipeline -/
 theorem classify_example :
@@ -1313,28 +1578,28 @@ theorem dropped_otherwise_of_no_close (H : Hash) (cfg : Cfg) (s : St) (t i : Nat
       simp [h0, hc0]
     · simp [ha]
 
-theorem dropped_otherwise_reach (H : Hash) (cfg : Cfg) (hv : cfg.variant = .fixed) (nS nD : Nat)
+theorem dropped_otherwise_reach (H : Hash) (cfg : Cfg) (hv : cfg.variant = .fixed) (conns : List Nat) (nD : Nat)
     (ls : List Label) (t i : Nat) (fate : Fate)
-    (ht : (run H cfg (init nS nD) ls).tasks[t]? = some (⟨i, .spawned fate⟩ : Task))
-    (hn : ¬ ∃ key p, fate = .handle key p ∧ key ∉ (run H cfg (init nS nD) ls).inflight.getD i []) :
-    ∃ s', step H cfg (run H cfg (init nS nD) ls) (.taskRun t) = some s' ∧
+    (ht : (run H cfg (initWith conns nD) ls).tasks[t]? = some (⟨i, .spawned fate⟩ : Task))
+    (hn : ¬ ∃ key p, fate = .handle key p ∧ key ∉ (run H cfg (initWith conns nD) ls).inflight.getD i []) :
+    ∃ s', step H cfg (run H cfg (initWith conns nD) ls) (.taskRun t) = some s' ∧
       s'.tasks[t]? = some (⟨i, .done⟩ : Task) ∧
-      s'.log = (run H cfg (init nS nD) ls).log ++ [.dropped t] ∧
-      s'.inflight = (run H cfg (init nS nD) ls).inflight := by
-  have hI := InvF_run H cfg hv nS nD ls
+      s'.log = (run H cfg (initWith conns nD) ls).log ++ [.dropped t] ∧
+      s'.inflight = (run H cfg (initWith conns nD) ls).inflight := by
+  have hI := InvF_run H cfg hv conns nD ls
   refine dropped_otherwise_of_no_close H cfg _ t i fate ht hn (Or.inl ?_)
   have hpos := live_pos ht (by simp)
   have h1 := hI.cl1
   have h2 := hI.cl2
-  have : ¬ (run H cfg (init nS nD) ls).closes = 1 := by
+  have : ¬ (run H cfg (initWith conns nD) ls).closes = 1 := by
     intro hx; have := h2.mp hx; omega
   omega
 
-theorem released_after_return' (H : Hash) (cfg : Cfg) (nS nD : Nat) (ls : List Label) (t i : Nat) (key : Key)
-    (ht : (run H cfg (init nS nD) ls).tasks[t]? = some (⟨i, .inHandler key⟩ : Task)) :
-    ∃ s', step H cfg (run H cfg (init nS nD) ls) (.taskFinish t) = some s' ∧
+theorem released_after_return' (H : Hash) (cfg : Cfg) (conns : List Nat) (nD : Nat) (ls : List Label) (t i : Nat) (key : Key)
+    (ht : (run H cfg (initWith conns nD) ls).tasks[t]? = some (⟨i, .inHandler key⟩ : Task)) :
+    ∃ s', step H cfg (run H cfg (initWith conns nD) ls) (.taskFinish t) = some s' ∧
       key ∉ s'.inflight.getD i [] := by
-  have hI := InvG_run H cfg nS nD ls
+  have hI := InvG_run H cfg conns nD ls
   obtain ⟨s', hs⟩ := taskFinish_enabled (H := H) (cfg := cfg) ht
   refine ⟨s', hs, ?_⟩
   obtain ⟨i', key', ht', rfl⟩ := step_taskFinish hs
@@ -1345,7 +1610,7 @@ theorem released_after_return' (H : Hash) (cfg : Cfg) (nS nD : Nat) (ls : List L
     have := ((hI.nodup i).mem_erase_iff).mp hm
     exact this.1 rfl
   · next hne =>
-    have hil : i < (run H cfg (init nS nD) ls).inflight.length := by
+    have hil : i < (run H cfg (initWith conns nD) ls).inflight.length := by
       rw [hI.len]; exact hI.bound t _ ht
     exact absurd (by simpa using hil) hne
 
